@@ -206,9 +206,188 @@ def _l14_suffix_patterns(run: Run) -> None:
                                     f"only succeeds when the whole term is that ending, so `2 x 10` followed by `3` loses its number separator (2 x 10 3)")
 
 
+def _l16_signed_products(run: Run) -> None:
+    """_print_Mul, evaluated on products with a factor -1: the sign is written once and a sum that stays behind keeps its brackets"""
+    from dataclasses import dataclass
+    from ..pyreader import PyReader, Raised
+    pm = run.src.need(PRINTER)
+    cls = next((c for c in pm.tree.body if isinstance(c, ast.ClassDef) and any(dotted(b) == "LatexPrinter" for b in c.bases)), None)
+    run.require(cls is not None, "LaTeX printer class not found")
+    meth = next((f for f in cls.body if isinstance(f, ast.FunctionDef) and f.name == "_print_Mul"), None)
+    run.require(meth is not None, "SymbolLatexPrinter._print_Mul not found")
+    methods = ast.Module(body=[x for x in pm.tree.body if not isinstance(x, ast.ClassDef)] + [x for x in cls.body if isinstance(x, ast.FunctionDef)], type_ignores=[])
+
+    @dataclass(frozen=True)
+    class E:
+        kind: str  # num | sym | add | mul
+        val: object = None
+        args: tuple = ()
+
+    ONE = E("num", 1)
+
+    def mul(args):  # Mul(*args, evaluate=False): AssocOp._from_args - nothing is combined or dropped, but one argument is returned as it is
+        args = list(args)
+        if not args:
+            return ONE
+        if len(args) == 1:
+            return args[0]
+        return E("mul", None, tuple(args))
+
+    class Me:
+        pass
+
+    class Rx:
+
+        def __init__(self, pattern):
+            self.pattern = pattern
+
+    class SNS:
+        pass
+
+    me = Me()
+
+    class R(PyReader):
+
+        def ev(self, n, env, fns):
+            if isinstance(n, ast.Attribute) and dotted(n) in ("S.One", "S.Zero", "S.NegativeOne") and "S" not in env:
+                return E("num", {"One": 1, "NegativeOne": -1, "Zero": 0}[n.attr])
+            return super().ev(n, env, fns)
+
+        def global_value(self, n):
+            if isinstance(n, ast.Name) and n.id == "S":
+                return SNS()
+            if isinstance(n, ast.Name) and n.id == "_between_two_numbers_p":
+                st = next((x for x in pm.tree.body if isinstance(x, ast.Assign) and any(isinstance(t, ast.Name) and t.id == n.id for t in x.targets)), None)
+                pats = [c.value for c in ast.walk(st.value) if isinstance(c, ast.Constant) and isinstance(c.value, str)] if st is not None else []
+                if len(pats) != 2:
+                    self.fail(n, "the two number-separator patterns are not literal")
+                return [Rx(re.compile(pats[0])), Rx(re.compile(pats[1]))]
+            return super().global_value(n)
+
+        def hook_attr(self, base, attr, n):
+            if isinstance(base, SNS):
+                if attr in ("One", "NegativeOne", "Zero"):
+                    return E("num", {"One": 1, "NegativeOne": -1, "Zero": 0}[attr])
+                self.fail(n, f"S.{attr}")
+            if isinstance(base, Me) and attr == "_settings":
+                return {"mul_symbol_latex": " ", "mul_symbol_latex_numbers": " \\cdot "}
+            if isinstance(base, E):
+                if attr == "is_Number":
+                    return base.kind == "num"
+                if attr in ("is_extended_negative", "is_negative"):
+                    return base.kind == "num" and base.val < 0
+                if attr == "is_Mul":
+                    return base.kind == "mul"
+                if attr == "is_Add":
+                    return base.kind == "add"
+                if attr in ("is_Pow", "is_Rational", "is_Relational", "is_Piecewise"):
+                    return False
+                if attr == "args":
+                    return list(base.args)
+                self.fail(n, f"attribute .{attr} of an expression")
+            return NotImplemented
+
+        def hook_unary(self, o, v, n):
+            if isinstance(v, E) and isinstance(o, ast.USub):
+                if v.kind == "num":
+                    return E("num", -v.val)
+                self.fail(n, "negation of an expression that is not a number")
+            return NotImplemented
+
+        def hook_compare(self, o, l, r, n):
+            if isinstance(l, E) and isinstance(r, E) and isinstance(o, (ast.Eq, ast.NotEq, ast.Is, ast.IsNot)):
+                return (l == r) == isinstance(o, (ast.Eq, ast.Is))
+            return NotImplemented
+
+        def hook_method(self, base, attr, args, kwargs, n):
+            if isinstance(base, Me):
+                if attr == "_print" and len(args) == 1 and isinstance(args[0], E):
+                    e = args[0]
+                    if e.kind == "mul":
+                        return self.call("_print_Mul", [base, e])
+                    return str(e.val) if e.kind == "num" else f"<{e.val}>"
+                if attr == "_needs_mul_brackets" and args and isinstance(args[0], E):
+                    return args[0].kind == "add"  # SymPy's own predicate on these operands: a sum inside a product is bracketed, symbols and positive numbers are not
+                if attr in self.functions:
+                    return self.call(attr, [base] + list(args), kwargs)
+                self.fail(n, f"printer method {attr}")
+            if isinstance(base, Rx) and attr in ("search", "match", "fullmatch"):
+                if args and isinstance(args[0], str):
+                    return True if getattr(base.pattern, attr)(args[0]) else None  # the pattern of the source, applied to the concrete text
+                self.fail(n, "number-separator pattern applied to text that is not concrete")
+            return NotImplemented
+
+        def hook_call(self, n, env, fns):
+            name = dotted(n.func) or ""
+            if name == "Mul" and name not in env:
+                args = []
+                for a in n.args:
+                    if isinstance(a, ast.Starred):
+                        args += list(self.ev(a.value, env, fns))
+                    else:
+                        args.append(self.ev(a, env, fns))
+                kw = {k.arg: self.ev(k.value, env, fns) for k in n.keywords if k.arg}
+                if kw.get("evaluate", True) is not False or not all(isinstance(a, E) for a in args):
+                    self.fail(n, "an evaluated product")
+                return mul(args)
+            if name == "str" and len(n.args) == 1 and "str" not in env:
+                v = self.ev(n.args[0], env, fns)
+                if isinstance(v, str):
+                    return v
+                self.fail(n, "str() of a value that is not text")
+            if name == "fraction" and n.args:
+                e = self.ev(n.args[0], env, fns)
+                if not isinstance(e, E):
+                    self.fail(n, "fraction of something that is not an expression")
+                # no operand of these cases is a power, a rational or an exponential: everything is numerator. fraction(..., exact=True) rebuilds it unevaluated
+                return [mul(e.args if e.kind == "mul" else [e]), ONE]
+            return NotImplemented
+
+    A, X, Y = E("add", "A"), E("sym", "x"), E("sym", "y")
+    M1 = E("num", -1)
+    cases = [
+        ("-1 * (sum)", E("mul", None, (M1, A)), True, ["A"], []),
+        ("-1 * x", E("mul", None, (M1, X)), True, [], ["x"]),
+        ("-1 * x * (sum)", E("mul", None, (M1, X, A)), True, ["A"], ["x"]),
+        ("-1 * (sum) * x", E("mul", None, (M1, A, X)), True, ["A"], ["x"]),
+        ("x * (sum)", E("mul", None, (X, A)), False, ["A"], ["x"]),
+        ("-1 * -1 * (sum)", E("mul", None, (M1, M1, A)), False, [], ["A"]),
+        ("-2 * (sum)", E("mul", None, (E("num", -2), A)), True, ["A"], []),
+        ("x * y", E("mul", None, (X, Y)), False, [], ["x", "y"]),
+    ]
+    for label, expr, negative, bracketed, present in cases:
+        run.ob("L16", label)
+        rd = R(methods, "printer_latex.py", depth_limit=10)
+        try:
+            out = rd.call("_print_Mul", [me, expr])
+        except Raised as r_:
+            run.violate("L16", f"{PRINTER}:_print_Mul:raises", pm, meth, f"_print_Mul raises {r_.exc} on the product {label}")
+            continue
+        if not isinstance(out, str):
+            raise AnalysisError(f"C18/L16: _print_Mul({label}) did not evaluate to text: {out!r}")
+        body = out.replace("\\left", "").replace("\\right", "")
+        signs = body.count("-")
+        if signs != (1 if negative else 0):
+            run.violate("L16", f"{PRINTER}:_print_Mul:sign", pm, meth, f"the product {label} is rendered `{out}`: {signs} minus sign(s), its value has {'one' if negative else 'none'}")
+            continue
+        for nm in bracketed:
+            if not re.search(r"\(\s*<" + nm + r">\s*\)", body):
+                run.violate("L16", f"{PRINTER}:_print_Mul:sum-loses-brackets", pm, meth,
+                            f"the product {label} is rendered `{out}`: the sum <{nm}> stands without brackets, so the sign (or the other factor) applies to its first term only "
+                            f"(- a + b for -(a + b))")
+        for nm in present + bracketed:
+            if f"<{nm}>" not in out:
+                run.violate("L16", f"{PRINTER}:_print_Mul:factor-dropped", pm, meth, f"the product {label} is rendered `{out}`: the factor <{nm}> is missing")
+        if label == "-1 * x * (sum)":
+            run.sample({"rule": "L16", "product": label, "rendered": out})
+
+
 def check(run: Run) -> None:
     run.rule("L14", "a pattern that tests how a rendered term ends is applied with .search(), never with the start-anchored .match() / .fullmatch()")
     _l14_suffix_patterns(run)
+    run.rule("L16", "_print_Mul, evaluated on products that carry a factor -1 (SymPy's unevaluated Mul returns a single argument as it is): the minus sign is written exactly once "
+             "and a sum among the remaining factors keeps its brackets")
+    _l16_signed_products(run)
     run.rule("L12", "an override of SymPy's _needs_mul_brackets / _needs_brackets / _needs_function_brackets returns True or SymPy's own answer (possibly or-ed): it only adds brackets")
     run.rule("L13", "latex_str / code_str build their printer per call: no printer object is kept in a module-level name across calls (settings of one call would render the next)")
     _l12_l13(run)
